@@ -114,12 +114,13 @@ func IndependentEntry(chain [][]byte, precert bool, strip stdasn1.ObjectIdentifi
 	if len(chain) == 0 {
 		return 0, nil, nil, nil, false
 	}
+	if !precert {
+		// the signed entry is the leaf certificate exactly as submitted, whatever a parser thinks of it
+		return 0, chain[0], nil, nil, true
+	}
 	leaf, err := x509.ParseCertificate(chain[0])
 	if err != nil {
 		return 0, nil, nil, nil, false
-	}
-	if !precert {
-		return 0, chain[0], nil, nil, true
 	}
 	if len(chain) < 2 {
 		return 0, nil, nil, nil, false
@@ -139,4 +140,39 @@ func IndependentEntry(chain [][]byte, precert bool, strip stdasn1.ObjectIdentifi
 	}
 	h := sha256.Sum256(issuer.RawSubjectPublicKeyInfo)
 	return 1, nil, h[:], stripped, true
+}
+
+// NonMinimalSerial re-encodes a certificate with its serial number INTEGER zero-padded by one octet (`02 02 00 01` for 1):
+// not DER, so a strict parser refuses it and only a lenient ("lax") one reads it.  Signature bytes are kept (and no longer match).
+func NonMinimalSerial(cert []byte) ([]byte, error) {
+	var outer stdasn1.RawValue
+	if rest, err := stdasn1.Unmarshal(cert, &outer); err != nil || len(rest) != 0 {
+		return nil, errors.New("verifkit: not one certificate")
+	}
+	parts, err := elements(outer.Bytes)
+	if err != nil || len(parts) != 3 {
+		return nil, errors.New("verifkit: malformed certificate")
+	}
+	fields, err := elements(parts[0].Bytes)
+	if err != nil {
+		return nil, err
+	}
+	var tbs bytes.Buffer
+	done := false
+	for _, f := range fields {
+		if !done && f.Class == stdasn1.ClassUniversal && f.Tag == stdasn1.TagInteger {
+			tbs.Write(derWrap(0x02, append([]byte{0}, f.Bytes...)))
+			done = true
+			continue
+		}
+		tbs.Write(f.FullBytes)
+	}
+	if !done {
+		return nil, errors.New("verifkit: no serial number")
+	}
+	var body bytes.Buffer
+	body.Write(derWrap(0x30, tbs.Bytes()))
+	body.Write(parts[1].FullBytes)
+	body.Write(parts[2].FullBytes)
+	return derWrap(0x30, body.Bytes()), nil
 }
